@@ -47,6 +47,8 @@ def gen_case(rng, tier, idx):
         cfg["simulation"]["markets"].append("S%d" % i)
     spots = list(cfg["simulation"]["markets"])
     comps = rng.sample(spots, rng.randint(2, n))
+    if idx % 11 == 7:
+        comps = [rng.choice(spots)]     # an index on a single market
     if idx % 11 == 5:
         # share counts that each fit a machine word while their total does not
         comps = list(spots)
